@@ -1,9 +1,9 @@
 CONSTANTS
   MaxChunks = 3
-  MaxTotal = 4
+  MaxTotal = 3
   MaxKeys = 1
-  MaxCount = 2
-  NAlpha = 4
+  MaxCount = 3
+  NAlpha = 3
 INIT MInit
 NEXT MNext
 CONSTRAINT Bounded
